@@ -145,7 +145,7 @@ def quick():
         for mk, key in (("response", None), ("header", None), ("data", None), ("request", 7), ("response", 18), ("request", 18)):
             add(mkind=mk, api_key=key, valid="0-3")
             add(mkind=mk, api_key=key, flex="0+")
-    out += special_names() + two_field() + nested_shapes()
+    out += special_names() + two_field() + nested_shapes() + api_pairs()
     return out
 
 
@@ -208,6 +208,20 @@ def two_field():
     # nullable primitive arrays (upstream: ConsumerGroupHeartbeatRequest.SubscribedTopicNames)
     out.append(make_def("request", "0-1", "0+", [F("Names", "[]string", nullableVersions="0+", default="null"), F("Trail", "int8")]))
     out.append(make_def("request", "0-1", "none", [F("Ids", "[]int32", nullableVersions="0+"), F("Trail", "int8")]))
+    return out
+
+
+def api_pairs():
+    """request + response of ONE api (same base name, same api key) declaring same-named structures"""
+    out = []
+    F = lambda n, t, **kw: dict({"name": n, "type": t, "versions": "0+"}, **kw)  # noqa: E731
+    for i, flex in enumerate(("none", "1+")):
+        base = f"Pair{i}Widget"
+        topic_req = [F("Name", "string"), F("Partitions", "[]int32")]
+        topic_res = [F("Name", "string"), F("ErrorCode", "int16"), F("Extra", "int64", versions="1+")]
+        req = make_def("request", "0-2", flex, [F("Topics", "[]WidgetTopic", fields=topic_req), F("Single", "WidgetInfo", fields=[F("Alpha", "int8")])], api_key=9000 + i, name=base)
+        res = make_def("response", "0-2", flex, [F("ThrottleTimeMs", "int32"), F("Topics", "[]WidgetTopic", fields=topic_res), F("Single", "WidgetInfo", fields=[F("Beta", "string")])], api_key=9000 + i, name=base)
+        out += [req, res]
     return out
 
 
